@@ -9,11 +9,11 @@ Requests (same file as for harness/c09_patterns.cpp; the hex fields are for the 
   variant <findAttrFix> <attrGuard> <rootGuard> <backtrack>   (0/1 each) selects the model variant (Matcher.lean `Variant`); echoed
   pat <hex pattern> <alt> ('|' <alt>)*
       alt  = ("abs" | "rel") <step>*          step = <sep>:<axis>:<test>:<preds>
-      sep  = c | d      axis = c | a      test = n.<name> | any | text | comment | pi | pl.<name> | node
+      sep  = c | d      axis = c | a | C (child::) | A (attribute::)      test = n.<name> | q.<prefix>.<uri>.<local> | w.<prefix>.<uri> | any | text | comment | pi | pl.<name> | node
       preds = "-" | comma separated:  i<k> | last | pe<k> | pnl | le<k> | lg<k> | pll | lm1 | a.<x> | c.<x> | na.<x>
   fpat <hex pattern> <hex4 units of the id()/key() call text> <node-set "3,7"|"-"> <step>*   (id()/key()-leading pattern)
       reply  "pat <rendered pattern> codes=<alt;alt> m=<score per node> s=<0/1 per node>"
-        codes: compilePath;  m: getMatchScore (model of XPath::getMatchScore);  s: Spec.matchesPattern
+        codes: compilePathW (the compiler's branches);  m: getMatchScore (model of XPath::getMatchScore);  s: Spec.matchesPattern
 -/
 open XalanModel.C09
 
@@ -51,6 +51,8 @@ def showNode (ni : NodeInfo) : String :=
 def parseTest (s : String) : Option Test :=
   match s.splitOn "." with
   | ["n", nm] => some (.name nm)
+  | ["q", pfx, uri, loc] => some (.qname pfx uri loc)
+  | ["w", pfx, uri] => some (.nsAny pfx uri)
   | ["any"] => some .any
   | ["text"] => some .text
   | ["comment"] => some .comment
@@ -83,9 +85,11 @@ def parseStep (tok : String) : Option (Sep × Step) :=
   match tok.splitOn ":" with
   | [sep, ax, t, ps] =>
     match (if sep = "c" then some Sep.child else if sep = "d" then some Sep.desc else none),
-          (if ax = "c" then some false else if ax = "a" then some true else none),
+          (if ax = "c" then some (false, false) else if ax = "a" then some (true, false)
+           else if ax = "C" then some (false, true) else if ax = "A" then some (true, true) else none),
           parseTest t, parsePreds ps with
-    | some sep, some ax, some t, some ps => some (sep, { attrAxis := ax, test := t, preds := ps })
+    | some sep, some ax, some t, some ps =>
+      some (sep, { attrAxis := ax.1, test := t, preds := ps, explicit := ax.2 })
     | _, _, _, _ => none
   | _ => none
 
@@ -121,7 +125,7 @@ def step (s : St) : List String → St × String
     | some d, some P =>
       if P.all Path.valid ∧ !P.isEmpty then
         let idx := List.range d.size
-        let codes := ";".intercalate (P.map fun p => String.join ((compilePath p).map fun c =>
+        let codes := ";".intercalate (P.map fun p => String.join ((compilePathW p).map fun c =>
           String.ofList (c.code.char :: c.preds.map fun q => if q.usesPos then '+' else '-')))
         let m := String.join (idx.map fun i => toString (getMatchScore s.v d P i).toNat)
         let sp := String.join (idx.map fun i => if Spec.matchesPattern d P i then "1" else "0")
@@ -137,7 +141,7 @@ def step (s : St) : List String → St × String
     | some d, some st, some units, some S =>
       let p : FnPath := { txt := String.ofList (units.map Char.ofNat), S := S, steps := st }
       let idx := List.range d.size
-      let codes := String.join ((compileFn p).map fun c =>
+      let codes := String.join ((compileFnW p).map fun c =>
         (match c.code with | .fn true => "FG" | _ => String.ofList [c.code.char]) ++
           String.ofList (c.preds.map fun q => if q.usesPos then '+' else '-'))
       let m := String.join (idx.map fun i => toString (getMatchScoreFn s.v d p i).toNat)
